@@ -110,6 +110,17 @@ fn generate(rng: &mut Rng) -> C16Sc {
         clients.push(NetClient { connect_at_ns: uptime + ms(rng.range(0, 5000)), peer: peer.to_string(), spec, wplan });
         kinds.push(kind.to_string());
     }
+    // a listener that has been up for a while has served somebody long ago: an ordinary login at the very start
+    if uptime > 0 {
+        let i = nh;
+        let peer: SocketAddr = if lb_mode { format!("10.88.0.2:{}", 21_000 + i).parse().unwrap() } else { format!("10.67.0.1:{}", 21_000 + i).parse().unwrap() };
+        let src: SocketAddr = format!("198.19.0.1:{}", 31_000 + i).parse().unwrap();
+        let mut spec = ClientSpec::base(rng, 2);
+        with_header(rng, &mut spec, proxy, &src);
+        spec.close_on_end_ns = Some(0);
+        clients.push(NetClient { connect_at_ns: 0, peer: peer.to_string(), spec, wplan: vec![] });
+        kinds.push("early_ordinary_login".to_string());
+    }
     // the victim: own IP, connects at a random instant, does a status exchange or a full login
     let vpeer: SocketAddr = if lb_mode { "10.88.0.1:45000".parse().unwrap() } else { "10.77.0.1:45000".parse().unwrap() };
     let vsrc: SocketAddr = "203.0.113.200:46000".parse().unwrap();
